@@ -25,6 +25,11 @@ Direct oracle (implementation alone): lexical scoping -- every observation must 
 determined by the options of the innermost enclosing "ext" of the same thread (or (True, False)
 under a top-level "fill", or refusal outside), whatever the other threads do; stubs carry only
 root; the frames seen by "read" are the same two frames whether or not contexts are filled.
+Aliasing oracle (multi-step history): every stub a "child" obtains is expanded in place by the
+harness (a consumer appending a Frame to stub.frames) and a second stub is requested at once;
+the `frames` list of every returned Stack must be a list object never handed out before (`is not`
+against the lists returned so far in this process: same call tree, later extractions, other
+threads, earlier cases) and every later stub must still be frameless.
 Extra leg: free-running (no barriers, 10 us switch interval) threads doing nested extractions.
 """
 from __future__ import annotations
@@ -62,7 +67,9 @@ CONFIG = dict(
     design_ref="DESIGN.md section 5 C13",
     trusted_base=["model M_Options.v (store machine for current_options / push / extract_child / fill_context) is hand-written",
                   "harness/facts_c13.py (ast, fail-closed): ExtractOptions derives from threading.local with a single module-level instance; "
-                  "push restores the saved pair in `finally`; extract/extract_outermost/fill_context push as modelled",
+                  "push restores the saved pair in `finally`; extract/extract_outermost/fill_context push as modelled; every Stack built in "
+                  "_extract.py owns a fresh frames list (no mutable default argument, no module-level list, `frames` of every Stack(...) is a "
+                  "fresh local list) -- list identity is not represented in M_Options, the fact enters C13_instance only",
                   "the stepping harness parks every thread but one between operations; the GIL makes one operation atomic w.r.t. the others"],
     assumptions=["hooks do not assign to stackscope._extract.current_options themselves",
                  "an operation (one push, one restore, one extract_child decision) is atomic w.r.t. other threads; with a thread-local store "
@@ -371,6 +378,26 @@ class Ctl:
         self._end_step(t)
 
 
+# frames lists of the Stacks returned so far (all cases of this process, all threads), kept alive
+# so that `is` comparisons are meaningful: every returned Stack must own a fresh list.
+_SEEN_FRAMES = []
+_SEEN_MAX = 512
+
+
+def _fresh_frames(frames):
+    """None if `frames` is a list object not handed out before, else a description"""
+    if not isinstance(frames, list):
+        return "frames is not a list: %s" % type(frames).__name__
+    for old in _SEEN_FRAMES:
+        if old is frames:
+            return "frames list object already returned by an earlier extract_child (shared between Stacks)"
+    _SEEN_FRAMES.append(frames)
+    if len(_SEEN_FRAMES) > _SEEN_MAX:
+        # keep the oldest few (a shared default lives forever) and the most recent ones
+        del _SEEN_FRAMES[16:len(_SEEN_FRAMES) - _SEEN_MAX // 2]
+    return None
+
+
 class Runner:
     def __init__(self, tid, ctl):
         S = _setup()
@@ -396,11 +423,30 @@ class Runner:
             return "other:" + repr(ex)[:80]
         if st.root is not self.task or st.error is not None or st.leaf is not None:
             return "other:root/leaf/error"
+        alias = _fresh_frames(st.frames)
+        if alias:
+            return "other:" + alias
         if st.frames == []:
+            # A consumer may expand a stub in place (Stack is a plain mutable dataclass and the
+            # stub's frames is its own list): do so, then ask again.  Every stub -- the next one of
+            # this call tree, of a later extraction, of another thread -- must still be a fresh
+            # frameless stack carrying only root.
+            try:
+                st.frames.append(ss.Frame(pyframe=self.task.gi_frame))
+                st2 = ss.extract_child(self.task, for_task=ft)
+            except BaseException as ex:
+                return "other:stub not expandable / second stub: " + repr(ex)[:80]
+            if st2.frames is st.frames:
+                return "other:two stubs share one frames list"
+            if st2.frames != [] or st2.root is not self.task or st2.leaf is not None or st2.error is not None:
+                return "other:stub after an expanded stub is not frameless"
+            alias = _fresh_frames(st2.frames)
+            if alias:
+                return "other:" + alias
             return "stub"
         if [f.pyframe for f in st.frames] == [self.task.gi_frame]:
             return "full"
-        return "other:frames"
+        return "other:frames (a stub that is not frameless, or a changed stack)"
 
     def do_read(self):
         ss = self.S["stackscope"]
@@ -412,6 +458,9 @@ class Runner:
             return "other:" + repr(ex)[:80]
         if st.error is not None or st.leaf is not None or [f.pyframe for f in st.frames] != self.ctxframes:
             return "other:frames changed"          # with_contexts must not change the frames
+        alias = _fresh_frames(st.frames)
+        if alias:
+            return "other:" + alias
         cx = [[c.obj for c in f.contexts] for f in st.frames]
         if cx == [[], []]:
             return "empty"
